@@ -336,6 +336,77 @@ func c03(c *an.Ctx) {
 		}
 	})
 
+	c.Check("R-BOOL", "diffMap: objects whose __key values differ - including a key present on one side only - are replaced as a whole, never diffed field by field (the client strips __key, so a field-wise delta would mention it)", 1, func(o *an.O) {
+		fn := c.NeedFunc(dp, "diffMap")
+		isKeyLookup := func(v ssa.Value) (*ssa.Lookup, bool) {
+			if ex, ok := v.(*ssa.Extract); ok && ex.Index == 0 {
+				v = ex.Tuple
+			}
+			lk, ok := v.(*ssa.Lookup)
+			if !ok {
+				return nil, false
+			}
+			k, isConst := an.ConstString(lk.Index)
+			return lk, isConst && k == "__key"
+		}
+		var cmp *ssa.BinOp
+		an.Instrs(fn, func(i ssa.Instruction) {
+			bo, ok := i.(*ssa.BinOp)
+			if !ok || (bo.Op != token.EQL && bo.Op != token.NEQ) {
+				return
+			}
+			_, okx := isKeyLookup(bo.X)
+			_, oky := isKeyLookup(bo.Y)
+			if okx && oky {
+				cmp = bo
+			}
+		})
+		if cmp == nil {
+			o.Fail(p.Pos(fn.Pos()), "diffMap no longer compares the __key of the two objects")
+			return
+		}
+		o.Site(cmp)
+		var replaced []ssa.Instruction
+		for _, i := range an.Calls(fn, an.Mod(dp, "", "markReplaced")) {
+			replaced = append(replaced, i)
+		}
+		var fieldwise []ssa.Instruction
+		an.Instrs(fn, func(i ssa.Instruction) {
+			if _, ok := i.(*ssa.Range); ok {
+				fieldwise = append(fieldwise, i)
+			}
+		})
+		an.Need(len(fieldwise) > 0, "field-by-field loops of diffMap")
+		// presence of __key on either side, where the code asks for it
+		for m := 0; m < 4; m++ {
+			oldHas, newHas := m&1 != 0, m&2 != 0
+			if !oldHas && !newHas {
+				continue // both absent: the keys are equal
+			}
+			sim := &an.BoolSim{Fn: fn, Atom: func(v ssa.Value) (bool, bool) {
+				if v == ssa.Value(cmp) {
+					return cmp.Op == token.NEQ, true // the keys differ
+				}
+				if ex, ok := v.(*ssa.Extract); ok && ex.Index == 1 {
+					if lk, ok := isKeyLookup(ex.Tuple); ok {
+						if lk.X == ssa.Value(fn.Params[0]) {
+							return oldHas, true
+						}
+						return newHas, true
+					}
+				}
+				return false, false
+			}}
+			r := sim.Run()
+			for _, fw := range fieldwise {
+				if r[fw.Block()] {
+					o.FailAt(cmp, "two objects with different __key (old has one: %v, new has one: %v) are diffed field by field: the delta then mentions __key itself (a removal marker or the raw key), which the client - holding the stripped value - cannot apply, or applies into a result that is not the stripped new value", oldHas, newHas)
+					break
+				}
+			}
+		}
+	})
+
 	c.Check("R-POST", "diffArray compares every new element with its old counterpart (matched by reorder key, which identifies objects by __key only) - no element is assumed unchanged without Diff", 1, func(o *an.O) {
 		fn := c.NeedFunc(dp, "diffArray")
 		var calls []ssa.Instruction
